@@ -27,7 +27,7 @@ var e1Owners = map[string][]string{
 	"C12": {"close-hang", "close-count", "close-leak", "close-later-op", "close-ctx", "serve-order", "panic", "fault-hang", "pooled-close", "pooled-leak", "pooled-conn-leak"},
 	"C13": {"panic", "byz-memory", "close-leak"},
 	"C15": {"pool-bounds", "pooled-conn-leak", "pooled-close", "pooled-hang", "pooled-probe", "pooled-leak", "panic", "crosstalk", "delivery"},
-	"C18": {"oldreader", "metadata-wire", "delivery", "completeness", "crosstalk", "probe", "handler-error", "spurious-error"},
+	"C18": {"oldreader", "metadata-wire", "delivery", "completeness", "crosstalk", "probe", "handler-error", "spurious-error", "client-stuck"},
 }
 
 // delivery-class oracles are shared: C02 owns crosstalk, C01 owns the rest, C05
@@ -959,6 +959,24 @@ func (x *e1) checkByz() {
 	for _, e := range []*Endpoint{x.cep, x.sep} {
 		if e.MaxReadBuf > bound {
 			x.viol("byz-memory", fmt.Sprintf("reader offered a %s buffer to the transport with maximum %d", sizeClass(e.MaxReadBuf), max), fmt.Sprintf("%d > %d", e.MaxReadBuf, bound))
+		}
+	}
+}
+
+// checkByzFlood: a peer that sends far more than the configured maximum as ONE
+// never-finished packet must be cut off: the receiving side ends the connection
+// (unless its reader is not reading at all, parked behind an unread message).
+func (x *e1) checkByzFlood(b *byzProxy) {
+	for from, n := range b.flooded {
+		role, reader := "server", "srv.manageReader"
+		closed := x.serveDone || x.sep.IsClosed()
+		if from == x.sep {
+			role, reader = "client", "cli.manageReader"
+			closed = x.conn == nil || connClosed(x.conn)
+		}
+		w := x.whereRole(reader)
+		if !closed && w != "cond:Put" && w != "exited" {
+			x.viol("byz-memory", fmt.Sprintf("the %s kept its connection open after the peer sent one unfinished packet of many times the maximum (reader@%s)", role, w), fmt.Sprintf("%d bytes, maximum %d", n, x.prog.Cfg.ReaderMax))
 		}
 	}
 }
